@@ -1,7 +1,7 @@
 (* C15 — elicitation rules learn values only by asking, within their query budget. Statements only. *)
 From Coq Require Import ZArith QArith List Bool Lia.
 Import ListNotations.
-From SCK Require Import ElicitM ElicitRun ElicitEval ElicitBS.
+From SCK Require Import ElicitM ElicitRun ElicitEval ElicitBS ElicitRules ElicitBudget.
 Local Open Scope Z_scope.
 
 (* Every rule is a query program: it can read the valuation only through Ask. For EVERY program, memoising
@@ -31,3 +31,15 @@ Theorem C15_binary_search_budget : forall fixer V rk i tau fuel a b st p st',
   a < b -> (Z.of_nat (cnt st') <= Z.of_nat (cnt st) + Z.log2_up (b - a)).
 Proof. exact bsearch_queries. Qed.
 Print Assumptions C15_binary_search_budget.
+
+(* k-ARV and lambda-TSF as run against a memoising elicitor from its initial state: agent a (numbered as the callback
+   sees it) is forwarded at most 1 + k * ceil(log2 m) questions, no question is forwarded twice, and the counter
+   equals the number of forwarded questions. *)
+Theorem C15_threshold_rule_budget : forall fixer V P k tau init a vt est',
+  let m := Z.of_nat (length (nth 0 P [])) in 1 <= m ->
+  run true fixer V (thr_rule P k tau false init) einit = (vt, est') ->
+  Z.of_nat (acnt a est') <= 1 + Z.of_nat k * Z.log2_up m /\ NoDup (trace est') /\ cnt est' = length (trace est').
+Proof. exact thr_rule_budget. Qed.
+Print Assumptions C15_threshold_rule_budget.
+(* NOT proved for all inputs (checked per case): the same bound for the two-sided rule (its extra question at the found
+   position is always a repeated one), exactly lambda for lambda-PRV, at most 2 for Match-TwoQueries. *)
